@@ -9,16 +9,19 @@
 (*   FindAffected  findAffectedFiles/countMatchingRowsInFiles: the files   *)
 (*                 holding at least one row where p is TRUE                *)
 (*   RewriteCopy   rewriteFileWithoutDeletedRows + rewriteLocalFile: the   *)
-(*                 file is replaced by  SELECT * WHERE NOT (p) ; the       *)
-(*                 reported count is rowsBefore - count FILTER              *)
-(*                 (WHERE NOT (p))                                         *)
+(*                 file is replaced by  SELECT * WHERE (p) IS NOT TRUE ;   *)
+(*                 the reported count is rowsBefore - count FILTER         *)
+(*                 (WHERE (p) IS NOT TRUE)                                 *)
 (*   RewriteRemove the same decision point when nothing is kept: the file  *)
 (*                 is removed from storage                                 *)
-(* Keep = "not_p" is the code as written (a row is kept iff NOT(p) is TRUE,*)
-(* i.e. p is FALSE); Keep = "is_not_true" is the repaired variant (kept    *)
-(* iff p is not TRUE).  Predicates are evaluated with Kleene three-valued  *)
-(* logic -- the external semantics the property names ("rows where the     *)
-(* predicate is false or NULL stay untouched").                            *)
+(* Keep = "is_not_true" is the code as it is now (since fix f4599fa: a row *)
+(* is kept iff p is not TRUE).  Keep = "not_p" is the code as it was       *)
+(* before that fix (kept iff NOT(p) is TRUE, i.e. p is FALSE: NULL rows of *)
+(* affected files were deleted); it survives only as the negative control  *)
+(* Neg_small.cfg, which TLC must reject (PropExact violated).  Predicates  *)
+(* are evaluated with Kleene three-valued logic -- the external semantics  *)
+(* the property names ("rows where the predicate is false or NULL stay     *)
+(* untouched").                                                            *)
 (*                                                                         *)
 (* Values are small naturals ("codes"), 0 = NULL; the Go driver maps a     *)
 (* (column, code) pair to a concrete SQL literal:                          *)
@@ -30,7 +33,7 @@
 EXTENDS Naturals, Sequences, FiniteSets, TLC, Json
 
 CONSTANTS Size,    \* "small" | "large"
-          Keep,    \* "not_p" | "is_not_true"
+          Keep,    \* "is_not_true" (current code) | "not_p" (pre-fix behaviour, negative control)
           Emit     \* TRUE: print the dataset once and one TRACE line per terminal state
 
 Null == 0
@@ -170,7 +173,7 @@ Init == /\ p \in Preds
 
 TrueIn(f)   == {i \in store[f] : tv[i] = "T"}
 Affected    == {f \in Files : TrueIn(f) # {}}
-Kept(f)     == IF Keep = "not_p" THEN {i \in store[f] : tv[i] = "F"}    \* WHERE NOT (p)
+Kept(f)     == IF Keep = "not_p" THEN {i \in store[f] : tv[i] = "F"}    \* WHERE NOT (p)   (pre-fix)
                                  ELSE {i \in store[f] : tv[i] # "T"}    \* WHERE (p) IS NOT TRUE
 Sum3(g(_)) == Cardinality(g(1)) + Cardinality(g(2)) + Cardinality(g(3))     \* Files = 1..3
 
@@ -195,7 +198,7 @@ RewriteStep ==
     /\ pc' = IF aff' = {} THEN "done" ELSE "rewrite"
     /\ UNCHANGED <<p, lay, tv, dry>>
 
-\* rowsAfter > 0: COPY ... WHERE NOT (p) to a temp file, rename over the original
+\* rowsAfter > 0: COPY ... WHERE (p) IS NOT TRUE to a temp file, rename over the original
 RewriteCopy   == pc = "rewrite" /\ aff # {} /\ Kept(Cur) # {} /\ RewriteStep
 \* rowsAfter = 0: the file is deleted from storage
 RewriteRemove == pc = "rewrite" /\ aff # {} /\ Kept(Cur) = {} /\ RewriteStep
@@ -212,7 +215,7 @@ StoreOf(f)   == store[f]
 Disappeared  == Sum3(OrigOf) - Sum3(StoreOf)
 NTrue        == Cardinality({i \in RowIds : tv[i] = "T"})
 
-\* holds for the code as written and for the repaired variant
+\* holds for the current code and for the pre-fix variant
 FalseRowsStay    == \A f \in Files : \A i \in Orig(lay, f) : tv[i] = "F" => i \in store[f]
 TrueRowsGone     == pc = "done" => \A f \in Files : \A i \in store[f] : tv[i] # "T"
 CountIsDisappear == pc = "done" => deleted = Disappeared
@@ -221,7 +224,7 @@ UntouchedFiles   == \A f \in Files : (\A i \in Orig(lay, f) : tv[i] # "T") => st
 NothingInvented  == \A f \in Files : store[f] \subseteq Orig(lay, f)
 ImplSafe == FalseRowsStay /\ TrueRowsGone /\ CountIsDisappear /\ DryRunInert /\ UntouchedFiles /\ NothingInvented
 
-\* the code as written: a NULL row disappears exactly when its file is affected
+\* characterises the pre-fix variant (Keep = "not_p"): a NULL row disappears exactly when its file is affected
 AsWritten == pc = "done" => \A f \in Files : \A i \in Orig(lay, f) :
                  tv[i] = "N" => ((i \in store[f]) <=> (\A j \in Orig(lay, f) : tv[j] # "T"))
 
